@@ -14,7 +14,7 @@ import (
 
 func drawC14(rt *rapid.T, tier string) SrvScenario {
 	o := srvDrawOpts{backends: []string{"cdb", "cdb", "cdb", "rdb1", "rdb2"}, maxClients: 4, maxQueries: 5, maxOps: 5,
-		faults: []string{"missing", "nokey", "inject", "lowio"}, closeOp: true, periodic: true, stats: true, signals: true}
+		faults: []string{"missing", "nokey", "inject", "lowio"}, closeOp: true, periodic: true, stats: true, signals: true, proc: 3}
 	if tier == "thorough" {
 		o.backends = []string{"cdb", "rdb1", "rdb2"}
 		o.maxQueries = 7
@@ -81,6 +81,12 @@ func runC14(t *testing.T, sc SrvScenario, keep bool) *core.Result {
 	}
 	if len(sc.Signals) > 0 && h.Closed {
 		res.Probe("async_signals_and_shutdown")
+	}
+	if sc.Proc {
+		res.Probe("whole_process_run")
+		if h.Closed {
+			res.Probe("whole_process_run_with_shutdown")
+		}
 	}
 	res.Population = srvPopulation(&sc)
 	res.Nontrivial = res.Switches > 0
